@@ -253,6 +253,21 @@ func genBuildObs(r *rand.Rand, i int) Scenario {
 }
 
 // roundtrip: build, persist, load (mem and file), observe, persist again (C04, C11)
+// wrapOf: half of the persists and merges write into a caller-owned *bufio.Writer (sizes on both sides of bufio's
+// own 4096 default: bufio.NewWriter(w) returns w itself when it is already big enough) that still holds bytes of
+// the caller; the count returned must be ice's own bytes only and the bytes must be the same (C04, C11, C12)
+func wrapOf(r *rand.Rand, o Op) Op {
+	if r.Intn(2) == 0 {
+		return o
+	}
+	o.Wrap = []int{16, 100, 4096, 4097, 8192, 65536}[r.Intn(6)]
+	o.Pre = []int{0, 1, 7, 300, o.Wrap - 1}[r.Intn(5)]
+	if o.Pre >= o.Wrap {
+		o.Pre = o.Wrap - 1
+	}
+	return o
+}
+
 func genRoundtrip(r *rand.Rand, i int) Scenario {
 	cfg := defaultCfg(r)
 	seq := 0
@@ -261,16 +276,16 @@ func genRoundtrip(r *rand.Rand, i int) Scenario {
 	sc.Ops = []Op{
 		{Op: "build", Seg: 1, Batch: 0, Mode: pickMode(r)},
 		{Op: "persist_fail", Seg: 1, N: 1 + r.Intn(300)}, // a failed write must not influence later ones
-		{Op: "persist", Seg: 1, File: 1},
+		wrapOf(r, Op{Op: "persist", Seg: 1, File: 1}),
 		{Op: "load", File: 1, Seg: 2, Backing: "mem"},
 		{Op: "load", File: 1, Seg: 3, Backing: "file"},
 		{Op: "persist_fail", Seg: 3, N: 1 + r.Intn(300)},
 		{Op: "observe", Seg: 2, Level: "full"},
 		{Op: "observe", Seg: 3, Level: "full"},
-		{Op: "persist", Seg: 2, File: 2},
-		{Op: "persist", Seg: 3, File: 3},
+		wrapOf(r, Op{Op: "persist", Seg: 2, File: 2}),
+		wrapOf(r, Op{Op: "persist", Seg: 3, File: 3}),
 		{Op: "load", File: 2, Seg: 4, Backing: "mem"},
-		{Op: "persist", Seg: 4, File: 4},
+		wrapOf(r, Op{Op: "persist", Seg: 4, File: 4}),
 		{Op: "observe", Seg: 4, Level: "light"},
 	}
 	return sc
@@ -327,7 +342,7 @@ func genMergeObs(r *rand.Rand, i int) Scenario {
 		drops[j] = randDrops(r, counts[h])
 	}
 	fileH++
-	sc.Ops = append(sc.Ops, Op{Op: "merge", File: fileH, In: inputs, Drops: drops, Mode: pickMode(r), Buf: []int{1, 16, 64, 4096, 0}[r.Intn(5)]})
+	sc.Ops = append(sc.Ops, wrapOf(r, Op{Op: "merge", File: fileH, In: inputs, Drops: drops, Mode: pickMode(r), Buf: []int{1, 16, 64, 4096, 0}[r.Intn(5)]}))
 	segH++
 	back := "mem"
 	if r.Intn(2) == 0 {
@@ -362,6 +377,38 @@ func genFamily(name string, seed int64, n int) []Scenario {
 	out := make([]Scenario, n)
 	for i := 0; i < n; i++ {
 		out[i] = f(r, i)
+		enforceContract(&out[i])
 	}
 	return out
+}
+
+// enforceContract repairs the batch-level parts of the input contract that a generator may have missed
+// (DESIGN section 5): a location names "" or a field of the same batch; frequency >= 1 and >= #locations.
+func enforceContract(sc *Scenario) {
+	for _, b := range sc.Batches {
+		present := map[string]bool{"": true}
+		for _, f := range b.FieldNames() {
+			present[f] = true
+		}
+		for d := range b {
+			for k := range b[d] {
+				for t := range b[d][k].Terms {
+					o := &b[d][k].Terms[t]
+					for j := range o.Locs {
+						if !present[o.Locs[j].Field] {
+							o.Locs[j].Field = ""
+						}
+					}
+					if o.Freq < len(o.Locs) || o.Freq < 1 {
+						delta := len(o.Locs) - o.Freq
+						if o.Freq+delta < 1 {
+							delta = 1 - o.Freq
+						}
+						o.Freq += delta
+						b[d][k].Len += delta
+					}
+				}
+			}
+		}
+	}
 }
